@@ -3,6 +3,7 @@ package main
 import (
 	"fmt"
 	"go/ast"
+	"go/token"
 	"sort"
 	"strings"
 )
@@ -25,17 +26,37 @@ func kindOf(e ast.Expr) string {
 	return ""
 }
 
-func isPanicStmt(s ast.Stmt) bool {
-	es, ok := s.(*ast.ExprStmt)
-	if !ok {
-		return false
+// isPanicCall: a call that does not return — the builtin `panic`, `log.Panic*`, `log.Fatal*`, `os.Exit`.
+func isPanicCall(c *ast.CallExpr) bool {
+	switch f := c.Fun.(type) {
+	case *ast.Ident:
+		return f.Name == "panic"
+	case *ast.SelectorExpr:
+		if id, ok := f.X.(*ast.Ident); ok {
+			if id.Name == "log" && (strings.HasPrefix(f.Sel.Name, "Panic") || strings.HasPrefix(f.Sel.Name, "Fatal")) {
+				return true
+			}
+			if id.Name == "os" && f.Sel.Name == "Exit" {
+				return true
+			}
+		}
 	}
-	c, ok := es.X.(*ast.CallExpr)
-	if !ok {
-		return false
-	}
-	id, ok := c.Fun.(*ast.Ident)
-	return ok && id.Name == "panic"
+	return false
+}
+
+// panicsIn reports whether a non-returning call occurs anywhere inside n (at any depth: nested
+// blocks, if/else arms, loops, function literals) at a source position after `after`.
+// Deliberately conservative: a panic that is guarded by a condition, or that sits in unrelated later
+// code, still counts — a switch flagged this way needs all nine kinds or an explicit justification.
+func panicsIn(n ast.Node, after token.Pos) bool {
+	found := false
+	ast.Inspect(n, func(m ast.Node) bool {
+		if c, ok := m.(*ast.CallExpr); ok && c.Pos() > after && isPanicCall(c) {
+			found = true
+		}
+		return !found
+	})
+	return found
 }
 
 type swFact struct {
@@ -44,9 +65,68 @@ type swFact struct {
 	kinds       []string
 	other       []string // other case types (nil, pointers, …)
 	hasDefault  bool
-	defPanics   bool
-	tailPanics  bool // the statement right after the switch (or the function's last statement) is a panic
+	defPanics   bool // a non-returning call anywhere in the default clause
+	tailPanics  bool // a non-returning call anywhere after the switch in the enclosing function body
 	emptyBodies int
+}
+
+// switchesIn collects the geometry type switches below `root` (a function body or a package-level
+// initialiser) in source order — at ANY depth and inside ANY statement or expression: blocks, if /
+// for / range / switch / select bodies, labelled statements, function literals (deferred, go'ed,
+// assigned or passed as arguments).  `body` is the body of the innermost enclosing function.
+func switchesIn(pk *pkgFiles, fn string, root ast.Node, body ast.Node, idx *int, out *[]swFact) {
+	var stack []ast.Node       // nodes being visited
+	bodies := []ast.Node{body} // enclosing function bodies (innermost last)
+	ast.Inspect(root, func(n ast.Node) bool {
+		if n == nil {
+			top := stack[len(stack)-1]
+			stack = stack[:len(stack)-1]
+			if _, ok := top.(*ast.FuncLit); ok {
+				bodies = bodies[:len(bodies)-1]
+			}
+			return true
+		}
+		stack = append(stack, n)
+		switch st := n.(type) {
+		case *ast.FuncLit:
+			bodies = append(bodies, st.Body)
+		case *ast.TypeSwitchStmt:
+			f := swFact{pkg: pk.rel, fn: fn}
+			seen := map[string]bool{}
+			for _, cc := range st.Body.List {
+				cl := cc.(*ast.CaseClause)
+				if cl.List == nil {
+					f.hasDefault = true
+					for _, b := range cl.Body {
+						if panicsIn(b, token.NoPos) {
+							f.defPanics = true
+						}
+					}
+				}
+				if len(cl.Body) == 0 {
+					f.emptyBodies++
+				}
+				for _, e := range cl.List {
+					if k := kindOf(e); k != "" {
+						if !seen[k] {
+							seen[k] = true
+							f.kinds = append(f.kinds, k)
+						}
+					} else {
+						f.other = append(f.other, src(pk, e))
+					}
+				}
+			}
+			if len(f.kinds) >= 2 {
+				*idx++
+				f.idx = *idx
+				f.tailPanics = panicsIn(bodies[len(bodies)-1], st.End())
+				sort.Strings(f.kinds)
+				*out = append(*out, f)
+			}
+		}
+		return true
+	})
 }
 
 func collectSwitches() []swFact {
@@ -56,88 +136,62 @@ func collectSwitches() []swFact {
 			return
 		}
 		idx := 0
-		var visitBlock func(list []ast.Stmt)
-		visitStmt := func(s ast.Stmt, next ast.Stmt) {}
-		visitBlock = func(list []ast.Stmt) {
-			for i, s := range list {
-				var next ast.Stmt
-				if i+1 < len(list) {
-					next = list[i+1]
-				}
-				visitStmt(s, next)
-			}
-		}
-		visitStmt = func(s ast.Stmt, next ast.Stmt) {
-			switch st := s.(type) {
-			case *ast.TypeSwitchStmt:
-				f := swFact{pkg: pk.rel, fn: strings.TrimPrefix(funcKey(pk, fd), pk.rel+".")}
-				seen := map[string]bool{}
-				for _, cc := range st.Body.List {
-					cl := cc.(*ast.CaseClause)
-					if cl.List == nil {
-						f.hasDefault = true
-						for _, b := range cl.Body {
-							if isPanicStmt(b) {
-								f.defPanics = true
-							}
-						}
-					}
-					for _, e := range cl.List {
-						if k := kindOf(e); k != "" {
-							if !seen[k] {
-								seen[k] = true
-								f.kinds = append(f.kinds, k)
-							}
-						} else {
-							f.other = append(f.other, src(pk, e))
-						}
-					}
-					visitBlock(cl.Body)
-				}
-				if len(f.kinds) >= 2 {
-					idx++
-					f.idx = idx
-					if next != nil && isPanicStmt(next) {
-						f.tailPanics = true
-					}
-					sort.Strings(f.kinds)
-					out = append(out, f)
-				}
-			case *ast.BlockStmt:
-				visitBlock(st.List)
-			case *ast.IfStmt:
-				visitBlock(st.Body.List)
-				if st.Else != nil {
-					visitStmt(st.Else, nil)
-				}
-			case *ast.ForStmt:
-				visitBlock(st.Body.List)
-			case *ast.RangeStmt:
-				visitBlock(st.Body.List)
-			case *ast.SwitchStmt:
-				for _, cc := range st.Body.List {
-					visitBlock(cc.(*ast.CaseClause).Body)
-				}
-			}
-		}
-		visitBlock(fd.Body.List)
+		switchesIn(pk, strings.TrimPrefix(funcKey(pk, fd), pk.rel+"."), fd.Body, fd.Body, &idx, &out)
 	})
+	// function literals in package-level variable initialisers (`var f = func(g orb.Geometry) {…}`)
+	rels := []string{}
+	for r := range pkgs {
+		rels = append(rels, r)
+	}
+	sort.Strings(rels)
+	for _, r := range rels {
+		pk := pkgs[r]
+		names := []string{}
+		for n := range pk.files {
+			names = append(names, n)
+		}
+		sort.Strings(names)
+		for _, n := range names {
+			for _, d := range pk.files[n].Decls {
+				gd, ok := d.(*ast.GenDecl)
+				if !ok || gd.Tok != token.VAR {
+					continue
+				}
+				for _, sp := range gd.Specs {
+					vs, ok := sp.(*ast.ValueSpec)
+					if !ok {
+						continue
+					}
+					for i, v := range vs.Values {
+						name := "var"
+						if i < len(vs.Names) {
+							name = "var " + vs.Names[i].Name
+						}
+						idx := 0
+						switchesIn(pk, name, v, v, &idx, &out)
+					}
+				}
+			}
+		}
+	}
 	return out
 }
 
 func genSwitches() *leanFile {
 	l := &leanFile{name: "Switches"}
 	l.p("/- REGENERATED by factgen from /repo on every run. Do not edit.")
-	l.p("   Every type switch in non-test code whose cases name at least two of the nine geometry kinds. -/")
+	l.p("   Every type switch in non-test code whose cases name at least two of the nine geometry kinds,")
+	l.p("   wherever it stands (any nesting, labelled statements, select bodies, function literals,")
+	l.p("   package-level initialisers). -/")
 	l.p("namespace Generated.Switches")
 	l.p("structure Sw where")
 	l.p("  pkg : String")
 	l.p("  fn : String")
-	l.p("  idx : Nat            -- n-th such switch inside the function")
+	l.p("  idx : Nat            -- n-th such switch inside the function (source order)")
 	l.p("  kinds : List String  -- geometry kinds named by the cases (sorted)")
 	l.p("  hasDefault : Bool")
-	l.p("  defaultPanics : Bool")
-	l.p("  tailPanics : Bool    -- the statement following the switch is a panic")
+	l.p("  defaultPanics : Bool -- a non-returning call (panic, log.Panic*/Fatal*, os.Exit) anywhere in the default clause")
+	l.p("  tailPanics : Bool    -- a non-returning call anywhere AFTER the switch in the enclosing function body")
 	l.p("deriving Repr, DecidableEq")
 	l.p("")
 	l.p("def switches : List Sw := [")
